@@ -58,6 +58,23 @@ def lookahead_alarms(tr):
     return out
 
 
+def case_work(case):
+    """one case, in a worker process: the reference run (max_concurrent=1, with the exactness test), the runs under the
+    other concurrency limits, the look-ahead monitor on each"""
+    common.ensure_repo_on_path()
+    tr1, exact = xd.run_exact(case)
+    c1 = canonical(tr1)
+    out = {"digest": digest(c1), "fills": any(o[2] != "0" for o in c1["orders"]), "steps": len(tr1.steps),
+           "alarms": [(1, a) for a in lookahead_alarms(tr1)], "mismatch_mc": None,
+           "item": xd.coq_check_item(tr1.case, tr1) if exact else None}
+    for mc in (2, 3, 4, 50):
+        trm = xd.run_case(case, max_concurrent=mc)
+        out["alarms"] += [(mc, a) for a in lookahead_alarms(trm)]
+        if canonical(trm) != c1 and out["mismatch_mc"] is None:
+            out["mismatch_mc"] = mc
+    return out
+
+
 def child_main():
     """sub-process: run the cases given on stdin, print their digests"""
     common.ensure_repo_on_path()
@@ -76,58 +93,73 @@ def run(chk):
         "subscription before/after the bar sources); each is run under max_concurrent 1,2,3,4,50 in-process and in "
         "sub-processes with 3 hash seeds x 2 repetitions; non-trivial = at least one fill and more than one pair")
     rnd = common.rng_for(chk.seed, "C03")
-    n = common.tier_n(chk.tier, 60, 1200)
+    n = common.tier_n(chk.tier, 60, 400)
     cases = [c for c in xc.corpus_cases("C03")]
     cases += [xg.gen_case(rnd, "multipair", "small" if i % 2 else "medium") for i in range(n)]
     items, owners = [], []
     ref = []
-    for case in cases:
-        tr1, exact = xd.run_exact(case)
-        c1 = canonical(tr1)
-        ref.append(digest(c1))
-        fills = any(o[2] != "0" for o in c1["orders"])
-        chk.note_case(json.dumps(case, sort_keys=True), fills and len(case["pairs"]) > 1)
-        chk.count("steps", len(tr1.steps))
-        for a in lookahead_alarms(tr1):
-            chk.violation(a[1], a[3], {"kind": "monitor", "monitor": a[1], "case": case, "max_concurrent": 1})
+    import multiprocessing
+    with multiprocessing.Pool(min(14, os.cpu_count() or 2)) as pool:
+        worked = pool.map(case_work, cases, chunksize=2)
+    for case, w in zip(cases, worked):
+        ref.append(w["digest"])
+        chk.note_case(json.dumps(case, sort_keys=True), w["fills"] and len(case["pairs"]) > 1)
+        chk.count("steps", w["steps"])
         for mc in (2, 3, 4, 50):
-            trm = xd.run_case(case, max_concurrent=mc)
             chk.count("runs_mc_%d" % mc)
-            cm = canonical(trm)
-            for a in lookahead_alarms(trm):
-                chk.violation(a[1], a[3], {"kind": "monitor", "monitor": a[1], "case": case, "max_concurrent": mc})
-            if cm != c1:
-                small = xc.shrink_case(case, lambda c: canonical(xd.run_case(c, max_concurrent=mc)) !=
-                                       canonical(xd.run_case(c, max_concurrent=1)), budget=40)
-                chk.violation("determinism:depends-on-max-concurrent",
-                              f"fills / balances differ between max_concurrent=1 and max_concurrent={mc}",
-                              {"kind": "monitor", "case": small, "max_concurrent": [1, mc],
-                               "result_mc1": canonical(xd.run_case(small, max_concurrent=1)),
-                               "result_mcN": canonical(xd.run_case(small, max_concurrent=mc))})
-                break
-        if exact:
-            items.append(xd.coq_check_item(tr1.case, tr1))
+        for mc, a in w["alarms"]:
+            chk.violation(a[1], a[3], {"kind": "monitor", "monitor": a[1], "case": case, "max_concurrent": mc})
+        if w["mismatch_mc"] is not None:
+            mc = w["mismatch_mc"]
+            small = xc.shrink_case(case, lambda c: canonical(xd.run_case(c, max_concurrent=mc)) !=
+                                   canonical(xd.run_case(c, max_concurrent=1)), budget=40)
+            chk.violation("determinism:depends-on-max-concurrent",
+                          f"fills / balances differ between max_concurrent=1 and max_concurrent={mc}",
+                          {"kind": "monitor", "case": small, "max_concurrent": [1, mc],
+                           "result_mc1": canonical(xd.run_case(small, max_concurrent=1)),
+                           "result_mcN": canonical(xd.run_case(small, max_concurrent=mc))})
+        if w["item"] is not None:
+            items.append(w["item"])
             owners.append(case)
-    # sub-processes: hash seeds x repetitions
+    # sub-processes: hash seeds x repetitions, all at once
     payload = json.dumps([[c, 50 if i % 2 else 1] for i, c in enumerate(cases)])
-    env = dict(os.environ)
+    procs = []
     for hs in ("0", "1", "424242"):
         for rep in range(2):
+            env = dict(os.environ)
             env["PYTHONHASHSEED"] = hs
-            p = subprocess.run([sys.executable, "-c", "from harness.props import c03; c03.child_main()"],
-                               input=payload, capture_output=True, text=True, env=env, cwd=common.VERIF, timeout=1800)
-            if p.returncode != 0:
-                chk.violation("determinism:subprocess-crash", "a backtest sub-process crashed",
-                              {"stderr": p.stderr[-2000:]}, no_failing_input=True)
-                continue
-            ds = json.loads(p.stdout.strip().splitlines()[-1])
-            chk.count("subprocess_runs", len(ds))
-            for i, (a, b) in enumerate(zip(ds, ref)):
-                if a != b:
-                    chk.violation("determinism:depends-on-hash-seed-or-run",
-                                  f"case {i}: result under PYTHONHASHSEED={hs} (repetition {rep}) differs from the "
-                                  f"in-process run", {"kind": "monitor", "case": cases[i], "hash_seed": hs})
-                    break
+            pr = subprocess.Popen([sys.executable, "-c", "from harness.props import c03; c03.child_main()"],
+                                  stdin=subprocess.PIPE, stdout=subprocess.PIPE, stderr=subprocess.PIPE, text=True,
+                                  env=env, cwd=common.VERIF)
+            procs.append((hs, rep, pr))
+    import threading
+    outs = {}
+
+    def feed(key, pr):
+        try:
+            outs[key] = pr.communicate(payload, timeout=3000)
+        except Exception as ex:     # noqa
+            pr.kill()
+            outs[key] = ("", repr(ex))
+    threads = [threading.Thread(target=feed, args=((hs, rep), pr)) for hs, rep, pr in procs]
+    for t in threads:
+        t.start()
+    for t in threads:
+        t.join()
+    for hs, rep, pr in procs:
+        out, err = outs[(hs, rep)]
+        if pr.returncode != 0 or not out.strip():
+            chk.violation("determinism:subprocess-crash", "a backtest sub-process crashed",
+                          {"stderr": (err or "")[-2000:]}, no_failing_input=True)
+            continue
+        ds = json.loads(out.strip().splitlines()[-1])
+        chk.count("subprocess_runs", len(ds))
+        for i, (a, b) in enumerate(zip(ds, ref)):
+            if a != b:
+                chk.violation("determinism:depends-on-hash-seed-or-run",
+                              f"case {i}: result under PYTHONHASHSEED={hs} (repetition {rep}) differs from the "
+                              f"in-process run", {"kind": "monitor", "case": cases[i], "hash_seed": hs})
+                break
     res = common.coq_eval_sharded("c03_ex", xd.EX_HEADER, items, balance=True) if items else []
     ndiv = 0
     first = None
